@@ -333,7 +333,14 @@ class Contract(object):
         caller = short_name(fr.qualname) if fr is not None else '?'
         callee = short_name(self.name)
         assume_pre = self.name in getattr(interp, 'assume_pre', ())
-        for k, f in self.requires(c, Args(bound)).items():
+        try:
+            pre_items = list(self.requires(c, Args(bound)).items())
+            rz = self.raises(c, Args(bound))
+        except (TypeError, AttributeError, KeyError, IndexError, ValueError) as e:
+            # the arguments at this call site are not of the shape the contract was written for (the caller changed):
+            # undecided, not a crash of the checker and not a violation
+            raise Unsupported('contract set-up out of date: the contract of %s cannot be applied at the call site in %s (%s: %s)' % (callee, caller, type(e).__name__, e))
+        for k, f in pre_items:
             if assume_pre:
                 # the caller under verification only orchestrates: the callee's domain conditions on the DATA are
                 # assumptions of the property (listed in the evidence), not obligations of the orchestration
@@ -342,7 +349,6 @@ class Contract(object):
                         st.assume(x)
                 continue
             st.oblige('%s/call.%s/pre.%s' % (caller, callee, k), f, kind='pre')
-        rz = self.raises(c, Args(bound))
         for exc, cond in rz.items():
             may = isinstance(cond, tuple) and cond[0] == 'may'
             if may:
@@ -358,8 +364,11 @@ class Contract(object):
             st.assume_pc(bnot(cond))
         old_st = st.fork()
         st.events.append(('call', self.name, dict(bound)))
-        self.havoc(c, Args(bound))
-        res = self.result(c, Args(bound))
+        try:
+            self.havoc(c, Args(bound))
+            res = self.result(c, Args(bound))
+        except (TypeError, AttributeError, KeyError, IndexError, ValueError) as e:
+            raise Unsupported('contract set-up out of date: the contract of %s cannot be applied at the call site in %s (%s: %s)' % (callee, caller, type(e).__name__, e))
         res = st.box(res)
         # the 4th component is a snapshot of the returned object's fields at return time (the caller may change them later)
         st.events.append(('ret', self.name, res, dict(st.heap[res.addr].attrs) if isinstance(res, ObjRef) and res.addr in st.heap else None))
